@@ -516,6 +516,19 @@ pub fn block(kind: &str, rng: &mut Rng, u: usize) -> (String, String) {
             body.push_str(&format!(
                 "sink += (int)smp_tex{u}.SampleLevel(smp_dyn{u}, float2(0.0f, 0.0f), 0.0f).y;\n"
             ));
+            // the same intrinsic on textures of several dimensions: one helper overload each on
+            // Metal (round 10: the helpers' order had only been determined by their flags)
+            for (ty, name, coord) in [
+                ("Texture3D", "t3d", "float3(0.0f, 0.0f, 0.0f)"),
+                ("TextureCube", "tcube", "float3(0.0f, 0.0f, 1.0f)"),
+                ("Texture2DArray", "t2a", "float3(0.0f, 0.0f, 1.0f)"),
+                ("TextureCubeArray", "tca", "float4(0.0f, 0.0f, 1.0f, 0.0f)"),
+            ] {
+                decl.push_str(&format!("const {ty}<float4> smp_{name}{u};\n"));
+                body.push_str(&format!(
+                    "sink += (int)smp_{name}{u}.SampleLevel(smp_dyn{u}, {coord}, 0.0f).x;\n"
+                ));
+            }
         }
         "control_flow" => {
             decl.push_str(&format!("int cf{u}(int x) {{\n    int acc = 0;\n"));
